@@ -71,7 +71,13 @@ pub fn gen_content(rng: &mut Rng, ncas: usize, nfiles: usize, dist: u64, allow_r
         md.num_bytes_on_disk = rng.below(pos as u64 + 1) as u32;
         if rng.chance(1, 10) { md.cas_flags = rng.below(4) as u32; }
         cas.push(MDBCASInfo { metadata: md, chunks });
-        if allow_readd && rng.chance(1, 12) { let c = cas[rng.below(cas.len() as u64) as usize].clone(); cas.push(c); }   // re-add the same xorb
+        if allow_readd && rng.chance(1, 8) {
+            // re-add an existing xorb hash: identical, or with a different chunk list (replaces the earlier block)
+            let mut c = cas[rng.below(cas.len() as u64) as usize].clone();
+            if rng.chance(1, 2) { let k = rng.range(1, 4); for _ in 0..k { c.chunks.push(CASChunkSequenceEntry::new(rand_hash(rng), rng.range(1, 5000) as u32, c.metadata.num_bytes_in_cas)); } c.metadata.num_entries = c.chunks.len() as u32; }
+            else if c.chunks.len() > 1 && rng.chance(1, 2) { c.chunks.truncate(1); c.metadata.num_entries = 1; }
+            cas.push(c);
+        }
     }
     let mut files = Vec::new();
     for _ in 0..nfiles {
@@ -87,7 +93,24 @@ pub fn gen_content(rng: &mut Rng, ncas: usize, nfiles: usize, dist: u64, allow_r
         let verification = if ver { (0..nseg).map(|_| FileVerificationEntry::new(rand_hash(rng))).collect() } else { vec![] };
         let f = MDBFileInfo { metadata: FileDataSequenceHeader::new(h, nseg, ver, meta), segments: segs, verification, metadata_ext: if meta { Some(FileMetadataExt::new(rand_hash(rng))) } else { None } };
         files.push(f);
-        if allow_readd && rng.chance(1, 12) { let f2 = files[rng.below(files.len() as u64) as usize].clone(); files.push(f2); }
+        if allow_readd && rng.chance(1, 8) {
+            // re-add an existing file hash: identical, or with another flag combination / another segment list (the later record replaces
+            // the earlier one in the BTreeMap; the size accounting must follow)
+            let mut f2 = files[rng.below(files.len() as u64) as usize].clone();
+            match rng.below(4) {
+                0 => {}
+                1 => { let (ver, meta) = (rng.chance(1, 2), rng.chance(1, 2));
+                       f2.metadata = FileDataSequenceHeader::new(f2.metadata.file_hash, f2.segments.len(), ver, meta);
+                       f2.verification = if ver { (0..f2.segments.len()).map(|_| FileVerificationEntry::new(rand_hash(rng))).collect() } else { vec![] };
+                       f2.metadata_ext = if meta { Some(FileMetadataExt::new(rand_hash(rng))) } else { None }; }
+                _ => { let extra = rng.range(1, 5) as usize; for _ in 0..extra { f2.segments.push(FileDataSequenceEntry::new(rand_hash(rng), rng.range(1, 1000) as u32, 0, 1)); }
+                       if rng.chance(1, 2) && f2.segments.len() > extra + 1 { f2.segments.truncate(1); }
+                       let ver = f2.metadata.contains_verification(); let meta = f2.metadata.contains_metadata_ext();
+                       f2.metadata = FileDataSequenceHeader::new(f2.metadata.file_hash, f2.segments.len(), ver, meta);
+                       f2.verification = if ver { (0..f2.segments.len()).map(|_| FileVerificationEntry::new(rand_hash(rng))).collect() } else { vec![] }; }
+            }
+            files.push(f2);
+        }
     }
     Gen { cas, files }
 }
